@@ -26,6 +26,7 @@ func init() {
 			{ID: "R06c", Floor: 2, Doc: "rescan completeness: probe of the last byte (or equivalent) dominates indexing; all scanned sections indexed; writer positioned from the section offsets", Run: ruleR06c},
 			{ID: "R06d", Floor: 3, Doc: "validate-before-mutate in Resume", Run: ruleR12a},
 			{ID: "R06e", Floor: 1, Doc: "Header.ReadFrom: field stores only after the three range checks", Run: ruleR09e},
+			{ID: "R06g", Floor: 1, Doc: "the file is truncated by the header on file only when that header is complete: IndexOffset (the last field Finalize writes) >= DataOffset + DataSize", Run: ruleR06g},
 			{ID: "R06f", Floor: 1, Doc: "every section already in the file is re-indexed on resume (= R12c): acknowledged blocks stay retrievable", Run: ruleR12c},
 		},
 	})
@@ -1045,4 +1046,65 @@ func ruleR12e(c *Ctx, r *Report) {
 			r.Check(bad == "", key, c.Pos(ci.Pos()), "DataOffset, WriteAsCarV1, MaxAllowedHeaderSize, ZeroLengthSectionAsEOF reach the parameters with those roles", bad)
 		}
 	}
+}
+
+func ruleR06g(c *Ctx, r *Report) {
+	fn, err := c.Func(pkgStore, "", "Resume")
+	if err != nil {
+		r.InfraFail("%v", err)
+		return
+	}
+	key := "truncate-by-complete-header@" + fnKey(fn)
+	var tr []ssa.Instruction
+	eachInstr(fn, func(in ssa.Instruction) {
+		if ci, ok := in.(*ssa.Call); ok {
+			if f := calleeFunc(ci.Common()); f != nil && f.Name() == "Truncate" {
+				tr = append(tr, in)
+			}
+		}
+	})
+	if len(tr) == 0 {
+		r.Exempt(key, c.Pos(fn.Pos()), "Resume no longer truncates")
+		return
+	}
+	env := &AffEnv{name: func(v ssa.Value) string {
+		if fv, _ := fieldOfLoad(canon(v)); fv != nil {
+			switch fv.Name() {
+			case "DataOffset":
+				return "DO"
+			case "DataSize":
+				return "DS"
+			case "IndexOffset":
+				return "IO"
+			}
+		}
+		return ""
+	}}
+	end := affAtom("DO").add(affAtom("DS"), 1)
+	ok := cmpEdges(fn, func(v ssa.Value) bool { return env.of(v).equal(affAtom("IO")) }, func(v ssa.Value) bool { return env.of(v).equal(end) }, "ge")
+	bad := ""
+	if len(ok) == 0 {
+		bad = "the file is truncated at DataOffset+DataSize of the header on file without checking that this header was written completely (IndexOffset, written last, >= DataOffset+DataSize): a crash inside Finalize's header write leaves a partial DataSize, and the truncation then destroys acknowledged blocks"
+	} else {
+		// The header value is a local that only Header.ReadFrom fills, and only when all its range checks
+		// pass (rule R06e/R09e). The truncation is itself guarded by DataOffset != 0, so only paths through
+		// the success outcome of ReadFrom with DataOffset != 0 can reach it: start there.
+		zero := cmpEdges(fn, func(v ssa.Value) bool { return env.of(v).equal(affAtom("DO")) }, func(v ssa.Value) bool { k, ok := constInt(v); return ok && k == 0 }, "eq")
+		nStart := 0
+		for _, rf := range callsToFunc(fn, modV2, "Header", "ReadFrom") {
+			for _, e := range condEdges(fn, errNilCond(errOfCall(rf), true)) {
+				nStart++
+				rr := reachFromEdge(fn, e, edgeSet(ok, zero))
+				for _, t := range tr {
+					if rr[t.Block()] {
+						bad = "Truncate is reachable from a successfully parsed header without the completeness outcome IndexOffset >= DataOffset+DataSize"
+					}
+				}
+			}
+		}
+		if nStart == 0 {
+			bad = "the header on file is not read with Header.ReadFrom (error tested) before it is used to truncate"
+		}
+	}
+	r.Check(bad == "", key, c.Pos(tr[0].Pos()), "Truncate only behind IndexOffset >= DataOffset + DataSize", bad)
 }
